@@ -90,6 +90,32 @@ Fixpoint first_min (sc : nat -> entry -> N) (m : store) (q : list key) (i : nat)
 Definition find_victim (c : cfg) (now : N) (m : store) (q : list key) : option key :=
   option_map fst (first_min (score c now (length q)) m q 0%nat None).
 
+(* score of the (first) queue position of key k, if k is stored *)
+Fixpoint score_at (sc : nat -> entry -> N) (m : store) (q : list key) (i : nat) (k : key) : option N :=
+  match q with
+  | [] => None
+  | k' :: q' => if N.eqb k k' then option_map (sc i) (lookup k m) else score_at sc m q' (S i) k
+  end.
+
+(* Ties may be broken arbitrarily: the code keeps the first minimum of its scan, the model
+   accepts ANY stored queue key whose score equals the minimum — the one named by the next
+   choice if it qualifies, the first minimum otherwise — so every theorem holds for every
+   tie-breaking rule. *)
+Definition find_victim_ch (c : cfg) (now : N) (m : store) (q : list key) (ch : list key)
+  : option key * list key :=
+  match first_min (score c now (length q)) m q 0%nat None with
+  | None => (None, ch)
+  | Some (v, s) =>
+      match ch with
+      | [] => (Some v, ch)
+      | k :: ch' =>
+          match score_at (score c now (length q)) m q 0%nat k with
+          | Some sk => if N.eqb sk s then (Some k, ch') else (Some v, ch')
+          | None => (Some v, ch')
+          end
+      end
+  end.
+
 (* ---------- eviction of one entry ---------- *)
 Definition evres := (store * list key * bool * list key)%type.  (* store, queue, evicted?, unused choices *)
 
@@ -118,9 +144,10 @@ Definition evict_one (c : cfg) (now : N) (unchecked : bool) (m : store) (q : lis
            (ch : list key) : evres :=
   match pol c with
   | LFU | ARC | TLRU =>
-      match find_victim c now m q with
-      | Some v => (sremove v m, (if is_async c then remove_all v q else remove_first v q), true, ch)
-      | None => (m, q, false, ch)
+      let '(ov, ch') := find_victim_ch c now m q ch in
+      match ov with
+      | Some v => (sremove v m, (if is_async c then remove_all v q else remove_first v q), true, ch')
+      | None => (m, q, false, ch')
       end
   | Random =>
       match q with
